@@ -159,6 +159,7 @@ impl SuperCallChecker {
       let initializer = match cur_node {
         ast_view::Node::ClassProp(prop) => prop.value.map(|v| v.range()),
         ast_view::Node::PrivateProp(prop) => prop.value.map(|v| v.range()),
+        ast_view::Node::AutoAccessor(prop) => prop.value.map(|v| v.range()),
         _ => None,
       };
       if initializer.map_or(false, |r| r.contains(&target_range)) {
